@@ -125,7 +125,8 @@ def _copy_crate(dst, repo):
     shutil.copytree(KANI_DIR, dst, ignore=shutil.ignore_patterns("target"))
     if repo != "/repo":
         toml = os.path.join(dst, "Cargo.toml")
-        open(toml, "w").write(open(toml).read().replace('path = "/repo"', 'path = "%s"' % repo))
+        text = open(toml).read().replace('path = "/repo"', 'path = "%s"' % repo)
+        open(toml, "w").write(text)
 
 
 def _crate(repo=None):
